@@ -213,6 +213,31 @@ func c16Run(sc *c16Scenario, schedule []int, keyMode bool, rnd *rand.Rand) (*c16
 		}
 		h.Log = append(h.Log, ev)
 	}
+	// a final read after every process has finished, through a fresh storage on the plain directory
+	// (process 9): whatever the interleaving was, the register's final value must be explained by the
+	// history - a successful update that left no trace shows here even if no scheduled read followed it
+	{
+		fst := filesystem.NewStorage(osfs.New(dir), nil)
+		val := ""
+		r, err := fst.Reference(c16Ref)
+		switch {
+		case err != nil:
+			if k := errKind(err); k == "notfound" {
+				val = "none"
+			} else {
+				val = k
+			}
+		case r.Type() != plumbing.HashReference:
+			val = "error:symbolic"
+		default:
+			if v, ok := c16Sym[r.Hash()]; ok {
+				val = v
+			} else {
+				val = "error:unknown-hash"
+			}
+		}
+		h.Log = append(h.Log, c16Event{P: 9, Ev: "inv", Op: "read"}, c16Event{P: 9, Ev: "res", Op: "read", Val: val})
+	}
 	// copy old/new onto res events for readability
 	last := map[int]c16Event{}
 	for i := range h.Log {
